@@ -239,9 +239,59 @@ def models_part(ctx, rng, months, uniform):
         ctx.distinct.add_rows(np.full(sel.size, mth), lats[sel], lons[sel])
 
 
+def fullrun_part(ctx, rng):
+    """Monitored compute() with a pressure-map cloud: the cloud model must be asked for exactly
+    the in-range events' own stored ground coordinates, in order, and its answers must be the
+    ones the kernel used (a cloud top above the shower gives zero PEs)."""
+    from nuspacesim.config import NssConfig, Simulation
+    from nuspacesim.simulation.atmosphere.clouds import CloudTopHeight
+
+    from .. import fullrun
+
+    inject.require_safe()
+    for mode, n in (("Diffuse", 150), ("Target", 2500)):
+        cfg = NssConfig()
+        cfg.simulation.mode = mode
+        cfg.simulation.thrown_events = n
+        cfg.simulation.cloud_model = Simulation.PressureMapCloud(month=int(rng.integers(1, 13)))
+        cfg.detector.initial_position.latitude, cfg.detector.initial_position.longitude = 0.6, 2.4
+        cfg.detector.radio.enable = False
+        asked = []
+        o_call = CloudTopHeight.__dict__["__call__"]
+
+        def p_call(self, *a, **k):
+            r = o_call(self, *a, **k)
+            asked.append((float(a[0]), float(a[1]), float(r)))
+            return r
+
+        CloudTopHeight.__call__ = p_call
+        try:
+            sim, log = fullrun.compute(cfg, seed=int(rng.integers(2**31)))
+        finally:
+            CloudTopHeight.__call__ = o_call
+        wit = {"mode": mode, "month": cfg.simulation.cloud_model.month}
+        if log.exception is not None:
+            ctx.exception("raises", f"compute() with a pressure-map cloud raised ({mode})", log.exception, wit)
+            continue
+        if len(sim) == 0:
+            continue
+        alt = np.asarray(sim["altDec"], dtype=np.float64)
+        inr = (alt >= 0) & (alt <= 20)
+        la, lo = np.asarray(sim["init_lat"], dtype=np.float64)[inr], np.asarray(sim["init_lon"], dtype=np.float64)[inr]
+        ctx.count("site-fullrun", int(inr.sum()))
+        got = np.array([(a, b) for a, b, _ in asked]).reshape(-1, 2)
+        # dask may evaluate the partitions in any order: compare the (lat, long) pairs as a multiset
+        srt = lambda a: a[np.lexsort((a[:, 1], a[:, 0]))] if a.size else a
+        if got.shape[0] != la.size or not np.array_equal(srt(got), srt(np.c_[la, lo])):
+            ctx.violation("site", f"full {mode} run: the cloud model was asked for {got.shape[0]} locations; the {la.size} in-range events' stored (init_lat, init_lon) are {'different pairs' if got.shape[0] == la.size else 'a different number'} (first asked {got[0].tolist() if got.size else None}, first stored {[float(la[0]), float(lo[0])] if la.size else None})", wit)
+        ctx.distinct.add_rows(np.full(la.size, float(cfg.simulation.cloud_model.month)), la, lo)
+
+
 def shard(ctx, si, payload):
     rng = ctx.subrng("c09", si)
-    if payload["kind"] == "kernel":
+    if payload["kind"] == "fullrun":
+        fullrun_part(ctx, rng)
+    elif payload["kind"] == "kernel":
         kernel_part(ctx, rng, payload["nev"])
     else:
         models_part(ctx, rng, payload["months"], payload["uniform"])
@@ -254,9 +304,10 @@ def run(ctx):
     nev = ctx.pick(60, 480)
     payloads = [{"kind": "kernel", "nev": max(1, nev // nsh)} for _ in range(nsh)]
     payloads += [{"kind": "models", "months": [m], "uniform": m == 1} for m in range(1, 13)]
+    payloads += [{"kind": "fullrun"}]
     core.run_shards(ctx, "nssmon.checks.c09", "shard", payloads, workers=16, timeout=ctx.pick(1200, 6000))
     ctx.exhaustive_subspaces.append("all 12 monthly cloud maps")
-    for m in ("below-first", "above-penult", "between", "between-piecewise", "site", "uniform", "map", "map-longitude"):
+    for m in ("below-first", "above-penult", "between", "between-piecewise", "site", "site-fullrun", "uniform", "map", "map-longitude"):
         ctx.require(m)
     return ctx.finish(
         rule="kernel: events over [0,42 deg] x [0,20 km] x [1e-3, 3e3] x 100 PeV, each with cloud tops {-inf, -1, first segment - 1e-3, one ulp below it; one ulp above the penultimate segment, between the last two, the last, +1 km, 1e6, +inf; midpoints of the first four and last four kept segment pairs, four exact segment altitudes, random in between}, for the production float32 kernel and the same kernel in double; maps: 12 months x random locations on the sphere (radians, lon in (-pi, pi]) incl. both poles and the +-180 deg seam plus 400 locations produced by the real geometry stage",
